@@ -380,6 +380,13 @@ def life_oracle(run, s, obs, props):
     if 'C08' in props:
         # what is announced is how THIS run ends: with no exception raised at any stage (only exit() calls / the stop event)
         # the announcement, if there is one, says 'clean' - wherever run() was called from
+        # with the policy 'propagate all' every run whose init() completed says goodbye, however it ends (setup() failing, exit()
+        # from anywhere, the stop event found set after a process() that took its time, an exception): once, before fini()
+        if s['prop_exit'] == 3 and s['ctor'] == 'ok' and s['init'] == 'ok':
+            n_e = sum(1 for r in tr if r[0] == 'e')
+            if n_e != 1:
+                run.violation('announce:%s %s' % ('missing' if n_e == 0 else 'repeated', key),
+                              'propagate policy all, init() completed: the exit was announced %d times (trace %s)' % (n_e, tr), case)
         raised = [w for w, o in reached if o in ('exc', 'base', 'prop') and w != 'fini']
         if not raised and ['e', True] in [list(r) for r in tr]:
             run.violation('announce:clean-end-announced-as-error %s%s' % (key, ' in-handler' if s.get('in_handler') else ''),
